@@ -59,9 +59,16 @@ func init() {
 func drawPkg(rt *rapid.T, jsonOnly, allowPb, withDeref bool) pkgSpec {
 	n := rapid.IntRange(1, 4).Draw(rt, "nstructs")
 	var p pkgSpec
+	if !jsonOnly && rapid.IntRange(0, 11).Draw(rt, "plainWidePackage") == 0 {
+		// one labelled struct beyond the tuple limit and nothing else: the generated file has no other use for
+		// package fp than the per-name declarations
+		n = 1
+		forcePlainWide = true
+	}
 	for i := 0; i < n; i++ {
 		p.structs = append(p.structs, drawStruct(rt, i+1, ExcludeFragile, jsonOnly))
 	}
+	forcePlainWide = false
 	if !jsonOnly && withDeref && rapid.IntRange(0, 2).Draw(rt, "derefs") == 0 {
 		nd := rapid.IntRange(1, 2).Draw(rt, "nderefs")
 		for i := 0; i < nd; i++ {
@@ -92,9 +99,21 @@ func runPackage(p pkgSpec) (fails []outcome, stage string) {
 			return []outcome{{"infra", err.Error()}}, "infra"
 		}
 	}
-	// the input package itself must compile (harness sanity)
+	// the input package itself must compile (harness sanity). A hand-written half of the JSON pair calls the
+	// generated AsMutable/AsImmutable, as user code does, so the sanity build runs on the text without it.
+	bare := p.withoutHandJson()
+	if bare.sourceFixed() != p.sourceFixed() {
+		if err := m.WriteFile("pa/types.go", bare.sourceFixed()); err != nil {
+			return []outcome{{"infra", err.Error()}}, "infra"
+		}
+	}
 	if r := m.Go(180*time.Second, "build", "./pa"); r.ExitCode != 0 {
-		return []outcome{{"infra|input-does-not-compile", scratch.FirstError(r.Out) + "\n" + p.sourceFixed() + "\n" + p.pbSource()}}, "infra"
+		return []outcome{{"infra|input-does-not-compile", scratch.FirstError(r.Out) + "\n" + bare.sourceFixed() + "\n" + p.pbSource()}}, "infra"
+	}
+	if bare.sourceFixed() != p.sourceFixed() {
+		if err := m.WriteFile("pa/types.go", p.sourceFixed()); err != nil {
+			return []outcome{{"infra", err.Error()}}, "infra"
+		}
 	}
 	g := m.RunGombok("pa", "pa")
 	if g.TimedOut {
@@ -121,15 +140,21 @@ func runPackage(p pkgSpec) (fails []outcome, stage string) {
 		return []outcome{{"gombok|no-output", "gombok wrote no pa_value_generated.go; output: " + clip(g.Out, 800)}}, "gombok"
 	}
 	if r := m.Go(180*time.Second, "build", "./pa"); r.ExitCode != 0 {
+		if scratch.ToolchainTrouble(r.Out) || r.TimedOut {
+			return []outcome{{"infra|toolchain-trouble", clip(r.Out, 600)}}, "infra"
+		}
 		fe := scratch.FirstError(r.Out)
 		return []outcome{{"compile|" + scratch.ErrorClass(stripPos(fe)), "generated code does not compile: " + clip(r.Out, 1500)}}, "compile"
 	}
 	law := strings.Replace(scratch.LawLib, "package PKGNAME", "package pa", 1)
 	_ = m.WriteFile("pa/zz_law_test.go", law)
 	_ = m.WriteFile("pa/zz_cases_test.go", p.cases(genfp.MaxProduct, gen))
-	r := m.Go(300*time.Second, "test", "-count=1", "-vet=off", "-v", "./pa")
+	r, _, died := m.GoTestLaws(300 * time.Second)
 	if r.TimedOut {
 		return []outcome{{"law|timeout", "law test did not finish"}}, "law"
+	}
+	if died {
+		return []outcome{{"infra|law-test-died", fmt.Sprintf("go test ended with exit code %d three times without a failing law, a panic or a build error: %s", r.ExitCode, clip(r.Out, 800))}}, "infra"
 	}
 	seen := map[string]bool{}
 	for _, l := range strings.Split(r.Out, "\n") {
@@ -194,6 +219,15 @@ func (p pkgSpec) mustEmit() bool {
 	return false
 }
 
+func (p pkgSpec) withoutHandJson() pkgSpec {
+	q := p
+	q.structs = append([]structSpec(nil), p.structs...)
+	for i := range q.structs {
+		q.structs[i].handJson = ""
+	}
+	return q
+}
+
 func stripPos(s string) string {
 	if i := strings.Index(s, ": "); i >= 0 {
 		return s[i+2:]
@@ -208,7 +242,7 @@ func clip(s string, n int) string {
 	return s
 }
 
-const ruleC07 = "package spec drawn from a grammar: 1-4 structs under @fp.Value (+ optional @fp.Json/@fp.JsonTag/@fp.GenLabelled, doc comment on the type or inside a type group) or the explicit family @fp.Getter/@fp.With/@fp.Builder/@fp.String[(useShow=true) with a hand-written Show instance]/@fp.AllArgsConstructor, plus @fp.RequiredArgsConstructor, @fp.GetterPubField, @fp.WithPubField, fp:\"String.Exclude\" field tags; in a third of the packages 1-2 @fp.Deref types `type D Base...` over a struct type with 0-2 type parameters and drawn methods (value/pointer receivers, with/without results), written as identifier, qualified identifier (second package pb) or instantiation, members declared by hand; 1-25 fields (private / Public / _underscore / embedded empty and non-empty; ordinary names incl. the short ones the generator uses itself: r v t m ok b err s w i), types: basic, named (time.Time, local), pointer, slice, array, map, func, chan, interfaces (any, error, named, inline), fp.Option/Seq/Map/Try/Tuple2/Either, type parameters with any/comparable/fmt.Stringer/inline constraints, struct tags, hand-written members; 2-3 literal values per struct. Pipeline: gombok from the tree under test -> go build -> reflective law test inside the package. Non-trivial iff a struct mixes >= 3 field kinds or has a type parameter; distinct by rendered spec"
+const ruleC07 = "package spec drawn from a grammar: 1-4 structs under @fp.Value (+ optional @fp.Json [one of MarshalJSON/UnmarshalJSON hand-written in a quarter of them]/@fp.JsonTag/@fp.GenLabelled, doc comment on the type or inside a type group) or the explicit family @fp.Getter/@fp.With/@fp.Builder/@fp.String[(useShow=true) with a hand-written Show instance]/@fp.AllArgsConstructor, plus @fp.RequiredArgsConstructor, @fp.GetterPubField, @fp.WithPubField, fp:\"String.Exclude\" field tags; in a third of the packages 1-2 @fp.Deref types `type D Base...` over a struct type with 0-2 type parameters and drawn methods (value/pointer receivers, with/without results), written as identifier, qualified identifier (second package pb) or instantiation, members declared by hand; 1-25 fields (private / Public / _underscore / embedded empty and non-empty; ordinary names incl. the short ones the generator uses itself: r v t m ok b err s w i), types: basic, named (time.Time, local), pointer, slice, array, map, func, chan, interfaces (any, error, named, inline), fp.Option/Seq/Map/Try/Tuple2/Either, type parameters with any/comparable/fmt.Stringer/inline constraints, struct tags, hand-written members; 2-3 literal values per struct. Pipeline: gombok from the tree under test -> go build -> reflective law test inside the package. Non-trivial iff a struct mixes >= 3 field kinds or has a type parameter; distinct by rendered spec"
 
 // PkgCheck registers one sub-check running generated packages through gombok.
 // prop "C07": all laws except the JSON clauses; prop "C15": only the JSON clauses.
@@ -309,6 +343,9 @@ func PkgCheck(t *testing.T, name string, jsonOnly bool, prop string, casesPerPro
 			}
 			if s.handGetPub != "" || s.handWithPub != "" {
 				rec.Label("hand:pub-member")
+			}
+			if s.handJson != "" {
+				rec.Label("hand:json-" + s.handJson)
 			}
 		}
 		for _, d := range p.derefs {
